@@ -42,7 +42,9 @@ var nonAsciiLabels = []string{"ä", "Ä", "日本語", "a≠b", "a≮b", "≯", 
 var weirdHosts = []string{"", ".", "..", "...", "a.", "a..", ".a", "a..b", "%41", "%2e", "%2E%2e", "ex%61mple", "a%00b", "a b", "a<b", "a>b", "a|b", "a^b", "a\\b",
 	"a%b", "a%2", "%zz", "a%25b", "a%2525b", "%C3%A4", "%c3%a4", "%E4", "%ff", "%80", "a%C3", "%EF%BF%BD", "a\x00b", "a\x7fb", "a\x1fb", "a%7fb", "a%20b", "a%23b",
 	"a%2Fb", "a%3Ab", "a%40b", "a%5Bb", "[", "]", "[]", "a[b]", "C:", "C|", "c:", "a:b", "a@b", "\xff", "a\xffb", "\xff\xfe", "a\xff\xfeb", "\xc3", "\xc3\n\xa4",
-	"a\tb", "a\nb", "%41%42", "1.2.3.4.", "1.2.3.4..", "a.1", "1.a", "0x.0x", "1..2", ".1", "1.", "%31", "%30x10", "１.２.３.４", "1。2。3。4", "0.0.0.0", "example.com:", "!\"$&'()*+,-.;=_`{}~"}
+	"a\tb", "a\nb", "%41%42", "1.2.3.4.", "1.2.3.4..", "a.1", "1.a", "0x.0x", "1..2", ".1", "1.", "%31", "%30x10", "１.２.３.４", "1。2。3。4", "0.0.0.0", "example.com:", "!\"$&'()*+,-.;=_`{}~",
+	// four labels that strconv.Atoi would read as 0..255 but that are not IPv4 numbers (signs), next to ones that are
+	"1.2.3.-0", "1.2.3.+4", "-0.-0.-0.-0", "+1.+2.+3.+4", "010.0.0.-0", "1.2.3.-1", "1.2.3.-00", "1.+2.3.4", "-1.2.3.4", "1.2.3.+0", "1.2.3.04", "1.2.3.4e0", "1.2.3.0_1"}
 
 var ipv4Nums = []string{"0", "1", "7", "8", "9", "10", "127", "255", "256", "257", "65535", "65536", "16777215", "16777216", "4294967295", "4294967296", "4294967297",
 	"9223372036854775807", "9223372036854775808", "18446744073709551615", "18446744073709551616", "99999999999999999999", "340282366920938463463374607431768211456",
